@@ -26,7 +26,7 @@ THEOREMS = [
     "Ural.Props.C15.infer_result_chain",
 ]
 TABLE_OBLIGATIONS = [
-    "Ural.Props.C15.redirect_patterns_unchanged",
+    "Ural.Props.C15.redirect_patterns_shape",
     "Ural.Props.C15.urllib_tables_unchanged",
     "Ural.Props.C15.protocol_pattern_unchanged",
 ]
@@ -62,7 +62,7 @@ TRUSTED = [
 ASSUMPTIONS = [
     "strings contain no lone surrogates; non-ASCII characters come from the plain alphabet of DESIGN.md §4 plus U+0130, U+0131, U+017F, U+212A",
     "'embedded target' is read generously by the oracle: unquote() of the value of ANY key=value item of the url (not only of the listed keys), "
-    "as is, prefixed by https://, or urljoin-ed to the url (or to http://+url, minus that prefix), or https:// + what follows a cache-host match",
+    "as is, prefixed by https://, or urljoin-ed to the url (for a url without protocol also: to http://+url, minus that prefix), or https:// + what follows a cache-host match",
 ]
 UNPROVED = (
     "nothing of the statement is left to the oracle alone for the model; urljoin/unquote/urlsplit are modelled-not-verified prelude "
@@ -281,6 +281,8 @@ def impl(case):
 # oracle
 # --------------------------------------------------------------------------------------
 _KV = _re.compile(r"([^=&]*)=([^&]+)")
+# the property's own notion of "has a protocol" (alphabetic protocol + '://', or protocol-relative '//')
+_HAS_PROTOCOL = _re.compile(r"(?:[a-zA-Z]{1,64}:)?//")
 _CACHE = _re.compile(r"\.ampproject\.org/[cv]/(?:s/)?|bc\.marfeelcache\.com/amp/|bc\.marfeel\.com/", _re.I)
 
 
@@ -299,7 +301,9 @@ def candidates(u):
         c.add(pt)
         c.add("https://" + pt)
         if pt.startswith("/"):
-            for base, cut in ((u, 0), ("http://" + u, 7)):
+            # joined to the input; a url without protocol may be joined as http://+url, minus that prefix
+            forms = [(u, 0)] if _HAS_PROTOCOL.match(u) else [(u, 0), ("http://" + u, 7)]
+            for base, cut in forms:
                 try:
                     c.add(_urljoin(base, pt)[cut:])
                 except ValueError:
